@@ -526,3 +526,81 @@ func TestVerifTokenLimitRealOutage(t *testing.T) {
 	})
 	c.Done()
 }
+
+// Concurrent callers: every interleaving of the client-side code around the (atomic) Redis
+// scripts, including two callers discovering an outage at the same time.
+func TestVerifLimitersConcurrent(t *testing.T) {
+	defer vrt.WriteReport()
+	limSetup()
+	if !vrt.Shard(10) {
+		return
+	}
+	bound := 2
+	if vrt.Thorough() {
+		bound = 3
+	}
+	// period limiter: quota 2, three concurrent takes of one key: exactly one Allowed, one
+	// HitQuota, one OverQuota, whatever the order
+	vrt.Explore(vrt.Options{Name: "periodlimit/concurrent/quota=2/3-callers", Bound: bound, Horizon: 1 << 30, Budget: vrt.FairBudget(3)}, func(r *vrt.Run) {
+		s := freshServer(r)
+		l := NewPeriodLimit(5, 2, redis.New(s.Addr()), "pl:")
+		var wg sync.WaitGroup
+		var mu sync.Mutex
+		got := map[int]int{}
+		for i := 0; i < 3; i++ {
+			wg.Add(1)
+			go func() {
+				defer wg.Done()
+				c, err := l.Take("k")
+				if err != nil {
+					r.Failf("Take: %v", err)
+					return
+				}
+				mu.Lock()
+				got[c]++
+				mu.Unlock()
+			}()
+		}
+		wg.Wait()
+		vrt.Obs()
+		r.Outcome("%v", got)
+		if got[Allowed] != 1 || got[HitQuota] != 1 || got[OverQuota] != 1 {
+			r.Failf("three concurrent takes with quota 2: %d Allowed, %d HitQuota, %d OverQuota, want one of each", got[Allowed], got[HitQuota], got[OverQuota])
+		}
+	})
+	// token limiter: burst 2, three concurrent single-token requests in one second: two granted
+	for _, outage := range []bool{false, true} {
+		outage := outage
+		vrt.Explore(vrt.Options{Name: fmt.Sprintf("tokenlimit/concurrent/burst=2/3-callers/outage=%v", outage), Bound: bound, Horizon: 1 << 30, Budget: vrt.FairBudget(3)}, func(r *vrt.Run) {
+			vrt.SetRandHook(func() (int64, bool) { return vrt.FloatDraw(1 - 1.0/(1<<53)), true })
+			s := freshServer(r)
+			r.Cleanup(func() { s.SetError("") })
+			l := NewTokenLimiter(1, 2, redis.New(s.Addr()), "tl")
+			if outage {
+				s.SetError("ERR verif outage")
+			}
+			now := vrt.Now()
+			var wg sync.WaitGroup
+			var mu sync.Mutex
+			granted := 0
+			for i := 0; i < 3; i++ {
+				wg.Add(1)
+				go func() {
+					defer wg.Done()
+					if l.AllowN(now, 1) {
+						mu.Lock()
+						granted++
+						mu.Unlock()
+					}
+				}()
+			}
+			wg.Wait()
+			vrt.Settle()
+			vrt.Obs()
+			r.Outcome("granted=%d", granted)
+			if granted != 2 {
+				r.Failf("three concurrent requests for one token, burst 2 (Redis failing: %v): %d granted, want 2", outage, granted)
+			}
+		})
+	}
+}
